@@ -212,6 +212,19 @@ def _short_writes(case):
     return n, res
 
 
+# 'whatever calls are made on other pids in between': the other call may also OVERLAP the retrieval on the same instance
+LINE_LEVEL = [
+    {"name": "retrieve(p1)||store(p3,L) from p1A,p2B", "init": "p1A,p2B", "pids": ("p1", "p2", "p3"),
+     "threads": {"T1": [("retrieve", "p1")], "T2": [("store", "p3", "L", None)]}},
+    {"name": "retrieve(p1)||retrieve(p2) from p1A,p2B", "init": "p1A,p2B", "pids": ("p1", "p2"),
+     "threads": {"T1": [("retrieve", "p1")], "T2": [("retrieve", "p2")]}},
+    {"name": "retrieve(p1)||delete(p2) from p1A,p2B", "init": "p1A,p2B", "pids": ("p1", "p2"),
+     "threads": {"T1": [("retrieve", "p1")], "T2": [("delete", "p2")]}},
+    {"name": "store(p1,L)||store(p2,K) from empty", "init": "empty", "pids": ("p1", "p2"),
+     "threads": {"T1": [("store", "p1", "L", None)], "T2": [("store", "p2", "K", None)]}},
+]
+
+
 def main(tier):
     rep = common.Report("C01", tier, "model_checking")
     nshort = 0
@@ -231,7 +244,11 @@ def main(tier):
             rep.violation(sig, det)
     rep.coverage.update({"input_cases": n, "sizes": sz, "kinds": KINDS, "algorithms": algos})
     run_spec(rep, C01Spec(tier), "witness-histories", time_cap=300 if tier == "quick" else 3000)
-    rep.assumptions += ["byte values follow a position-dependent pattern; digest correctness for arbitrary bytes is hashlib's",
+    from ._t import line_level_part
+    line_level_part(rep, LINE_LEVEL)
+    rep.assumptions += ["line level (engine L): a retrieve_object overlapping a call on another pid, one pre-emption at "
+                        "every source line of the package; the reader must get exactly the stored bytes",
+                        "byte values follow a position-dependent pattern; digest correctness for arbitrary bytes is hashlib's",
                         "read-buffer sizes: st_blksize of the source file system and the 8192 fallback"]
     return rep.finish(rep._samples + [{"algo": algos[0], "size": sz[3], "kind": KINDS[4]}])
 
